@@ -469,7 +469,7 @@ def r7(run, project):
     exceeded_by = already + size - max at both overrun sites, violator_value = size, the overrun skip and the padding
     skip = max - already.  Decided by normalising the expressions (through locals and properties) to coefficient maps -
     no value is computed."""
-    from ..fnview import linear_form
+    from ..fnview import inlined_tests, linear_form
     cm = project.module(CONSTRAINTS)
     bp = cm.functions().get("SizeConstraint.bytes_parsed")
     ad = cm.functions().get("SizeConstraint.assert_done")
@@ -485,6 +485,8 @@ def r7(run, project):
         eb = kwarg(c, "exceeded_by")
         f = linear_form(cm, bp, eb, atoms) if eb is not None else None
         n += 1
+        if eb is not None and f is None:
+            raise AnalysisError(f"C03-R7: exceeded_by expression `{norm(eb)}` is not a recognisable linear form")
         run.ob("R7", f == want_exc, f"{call_name(c)}: exceeded_by = counted + size - limit",
                f"exceeded_by is `{norm(eb) if eb is not None else None}` (as a linear form: {f}); the error must report by how much "
                "`counted so far + this field` passes the limit", module=cm, node=c, func="SizeConstraint.bytes_parsed",
@@ -498,6 +500,8 @@ def r7(run, project):
         for c in [c for c in walk_no_nested(fn) if isinstance(c, ast.Call) and call_name(c) == "consume_bytes"]:
             f = linear_form(cm, fn, c.args[0], atoms) if c.args else None
             n += 1
+            if c.args and f is None:
+                raise AnalysisError(f"C03-R7: skip amount `{norm(c.args[0])}` is not a recognisable linear form")
             run.ob("R7", f == want_rest, f"{q}: skips limit - counted bytes", f"skip amount is `{norm(c.args[0]) if c.args else None}` "
                    f"(linear form {f}): decoding must resume exactly at the end the size field declares", module=cm, node=c, func=q,
                    construct=f"{q} skip amount")
@@ -512,17 +516,19 @@ def r7(run, project):
             out[k] = out.get(k, 0) - v
         return {k: v for k, v in out.items() if v}
     over = []
-    for t in [x for x in walk_no_nested(bp) if isinstance(x, ast.Compare) and len(x.ops) == 1 and isinstance(x.ops[0], (ast.Gt, ast.Lt, ast.GtE, ast.LtE))]:
+    for t in [x for x in inlined_tests(bp) if len(x.ops) == 1 and isinstance(x.ops[0], (ast.Gt, ast.Lt, ast.GtE, ast.LtE))]:
         f = diff_form(t, bp)
         if f is not None and set(f) >= {"self.size_max"}:
             over.append((t, f))
+    if not over:
+        raise AnalysisError("C03-R7: the overrun comparison of bytes_parsed was not found (unrecognised shape)")
     ok = len(over) == 1 and ((isinstance(over[0][0].ops[0], ast.Gt) and over[0][1] == want_exc) or
                              (isinstance(over[0][0].ops[0], ast.Lt) and over[0][1] == {k: -v for k, v in want_exc.items()}))
     run.ob("R7", ok, "overrun test: counted + size > limit (look-ahead, strict inequality)",
            f"the overrun comparison is `{norm(over[0][0]) if over else None}`: a field is an overrun iff the bytes counted so far plus "
            "its own size pass the limit", module=cm, node=over[0][0] if over else bp, func="SizeConstraint.bytes_parsed",
            construct="overrun comparison")
-    eqs = [x for x in walk_no_nested(ad) if isinstance(x, ast.Compare) and len(x.ops) == 1 and isinstance(x.ops[0], (ast.Eq, ast.NotEq))
+    eqs = [x for x in inlined_tests(ad) if len(x.ops) == 1 and isinstance(x.ops[0], (ast.Eq, ast.NotEq))
            and diff_form(x, ad) in ({"self.size_already": 1, "self.size_max": -1}, {"self.size_already": -1, "self.size_max": 1})]
     run.ob("R7", len(eqs) == 1, "region end test: counted == limit", "assert_done no longer compares the bytes counted with the limit for equality",
            module=cm, node=ad, func="SizeConstraint.assert_done", construct="region end comparison")
